@@ -1,10 +1,13 @@
 //verif:dest internal/verifh/c07/c07g.go
 //verif:replace@C07g fmt.Print = c07gPrint
 //verif:replace@C07g fmt.Println = c07gPrintln
+//verif:replace@C07g (*os.File).Write = c07gFileWrite
+//verif:replace@C07g (*os.File).WriteString = c07gFileWriteString
 
 package c07
 
 import (
+	"os"
 	"strings"
 	"time"
 
@@ -25,6 +28,12 @@ func c07gEmit(s string) {
 	verifrt.Yield()
 	c07gTerminal = append(c07gTerminal, s[h:]...)
 }
+// whatever is written to a standard stream reaches the terminal as well
+func c07gFileWrite(f *os.File, b []byte) (int, error) {
+	c07gEmit(string(b))
+	return len(b), nil
+}
+func c07gFileWriteString(f *os.File, s string) (int, error) { return c07gFileWrite(f, []byte(s)) }
 func c07gPrint(a ...interface{}) (int, error) {
 	s := ""
 	for _, x := range a {
